@@ -380,6 +380,32 @@ def scale_case(draw, n_points=(10, 16), **kw):
     return {"model": spec, "points": pts}
 
 
+@st.composite
+def big_configurator_spec(draw, min_top=0):
+    """a configurator of catalogue size: 8-40 option groups (defaulted Xor / Any of 3-4 options; a few without default), some
+    requirement rules between options of different groups, and 0-120 free top-level items. About 8 columns per group, so the
+    polyhedron has 60-450 columns; ``min_top`` forces at least that many top-level children."""
+    L = lambda i: {"k": "leaf", "id": i, "b": [0, 1]}
+    ng = draw(st.sampled_from([8, 16, 31, 32, 33, 40]))
+    groups = []
+    for g in range(ng):
+        no = 4 if (g % 3) else 3
+        opts = [L("g%03d_%s" % (g, "abcd"[k])) for k in range(no)]
+        kind = "cXor" if draw(st.integers(0, 4)) else "cAny"
+        default = None if draw(st.integers(0, 7)) == 0 else [opts[draw(st.integers(0, no - 1))]["id"]]
+        groups.append({"k": kind, "id": "G%03d" % g, "c": opts, "default": default})
+    rules = []
+    for j in range(draw(st.sampled_from([0, 2, 5, 12]))):
+        g1, g2 = draw(st.integers(0, ng - 1)), draw(st.integers(0, ng - 1))
+        if g1 != g2:
+            rules.append({"k": "Imply", "id": "I%03d" % j, "c": [L("g%03d_a" % g1), L("g%03d_b" % g2)]})
+    n_items = draw(st.sampled_from([0, 1, 5, 40, 96, 120]))
+    need = max(0, min_top - (ng + len(rules)))
+    n_items = max(n_items, need)
+    items = [L("it%03d" % j) for j in range(n_items)]
+    return {"k": "Stingy", "id": draw(st.sampled_from(["conf", "conf", None])), "c": items + groups + rules}
+
+
 def rulebase_case(r, kinds=("Any",), falsify=(0, 1, 2)):
     """deterministic LARGE rule base: All over r rules R_j over the disjoint leaves (x_j, y_j); points: all leaves 1 with the
     leaves of k rules set to 0, for each k in ``falsify`` (rules taken from both ends and the middle)"""
